@@ -1254,7 +1254,7 @@ pub fn t_order_scope(a: &[i64]) -> Val {
 // t_order_vft: generated vftable types referenced from signatures, built twice (C09).
 //   A { vftable { f(&self) }, x }   B { y }  impl B { #[address(16)] fn g(&self, p: ARG) }
 //   C { vftable { h(&self, q: ARG2) }, z }   extern ev: ARG3 at 32
-// a = [ps, arg, arg2, arg3, b_field, n_avft]   kinds: 0 u32, 1 *const A, 2 *const AVftable, 3 *const CVftable, 4 *const BVftable (never exists)
+// a = [ps, arg, arg2, arg3, b_field, n_avft, m_cvft]   kinds: 0 u32, 1 *const A, 2 *const AVftable, 3 *const CVftable, 4 *const BVftable (never exists)
 //   b_field: B additionally has a field of that kind (fields are retried, signatures are not)
 //   n_avft: an imported module `n` declares its own `AVftable` (two pointers), so the name AVftable has two providers once m's is generated
 fn order_arg(k: i64) -> T {
@@ -1294,6 +1294,14 @@ pub fn t_order_vft(a: &[i64]) -> Val {
                 .with_attributes([A::integer_fn("address", 16)])],
         )])
         .with_extern_values([EV::new(V::Public, "ev", order_arg(a[3]), [A::integer_fn("address", 32)])]);
+    // a[6]: m itself declares a user type named like the vftable type pyxis generates for C (a collision, whatever is resolved first)
+    let m = if a.len() > 6 && a[6] != 0 {
+        let mut defs = m.definitions.clone();
+        defs.push(ID::new((V::Public, "CVftable"), TD::new([TS::field((V::Public, "u"), p8())])));
+        m.with_definitions(defs)
+    } else {
+        m
+    };
     if a.len() > 5 && a[5] != 0 {
         let m = m.with_uses([IP::from("n")]);
         let n = M::new().with_definitions([ID::new(
@@ -1317,7 +1325,7 @@ pub fn t_order_vft(a: &[i64]) -> Val {
 
 // t_equiv: a description and a rewritten but equivalent description (C20).
 //   extern X0 (s0, al), X1 (s1, al);  type T { [vftable { v0; v1 }] f0: X0, <gap g>, f1: X1 }  enum E: i32 { A = e0, B, C }
-// a = [ps, s0, s1, al, g, e0, vft, r_addr0, r_gap, r_size, r_index, r_enum, r_order, r_addr1, base_mode, packed (2 = packed with a leading u8 field)]
+// a = [ps, s0, s1, al, g, e0, vft, r_addr0, r_gap, r_size, r_index, r_enum, r_order, r_addr1, base_mode, packed (2 = packed with a leading u8 field), gap_style]
 //   r_addr0 : f0 gets the explicit address it already has          r_addr1: same for f1
 //   r_gap   : the gap is written as `_: unknown<g>` in the first description and as #[address] on f1 in the second
 //   r_size  : #[size(natural size)] added        r_index : #[index(1)] on v1      r_enum : `B = e0 + 1` written out
@@ -1368,7 +1376,11 @@ pub fn t_equiv(a: &[i64]) -> Val {
             if rw {
                 stmts.push(mk_f1(true));
             } else {
-                stmts.push(TS::field((V::Private, "_"), T::unknown(g)));
+                // a[16]: the gap is written `pub _: unknown<g>` (1) or carries a doc comment (2): generated `_field_<offset>` fields are
+                // private and undocumented however the gap was spelled
+                let gap_style = if a.len() > 16 { a[16] } else { 0 };
+                let gap = TS::field((if gap_style == 1 { V::Public } else { V::Private }, "_"), T::unknown(g));
+                stmts.push(if gap_style == 2 { gap.with_attributes([A::doc("a gap")]) } else { gap });
                 stmts.push(mk_f1(on(13)));
             }
         } else {
@@ -1408,7 +1420,7 @@ pub fn t_equiv(a: &[i64]) -> Val {
 //   n: extern S (size sn);  m: use n;  type R { f: S, p: *const R }  [vftable on R]  enum K: u32
 //   u: not imported by m or n.  It declares, per flag: a type named R (colliding short name), a type named S of another size,
 //      a type with a vftable named like R's table (RVftable), an enum K, and it may import m.
-// a = [ps, sn, r_vft, u_R, u_S, u_S_size, u_RVftable, u_K, u_uses_m, u_first, u_impl_R]
+// a = [ps, sn, r_vft, u_R, u_S, u_S_size, u_RVftable, u_K, u_uses_m, u_first, u_impl_R, type_import]
 pub fn t_unrelated(a: &[i64]) -> Val {
     let ps = a[0] as usize;
     let mn = M::new().with_extern_types([(
@@ -1421,10 +1433,23 @@ pub fn t_unrelated(a: &[i64]) -> Val {
     }
     r_stmts.push(TS::field((V::Public, "p"), T::ident("R").const_pointer()));
     r_stmts.push(TS::field((V::Public, "f"), T::ident("S")));
-    let mm = M::new().with_uses([IP::from("n")]).with_definitions([
-        ID::new((V::Public, "R"), TD::new(r_stmts).with_attributes([A::packed()])),
-        ID::new((V::Public, "K"), ED::new(T::ident("u32"), [ES::field("A")], [])),
-    ]);
+    // a[11] != 0: m imports the type `n::S` by path (not the module) and has its own type `S2`, whose name starts with the imported
+    // type's name; a[11] == 2: in the second build n additionally declares an `S2` of its own, which m neither imports nor references
+    let type_import = a.len() > 11 && a[11] != 0;
+    let mut m_defs = vec![];
+    if type_import {
+        r_stmts.push(TS::field((V::Public, "g"), T::ident("S2").const_pointer()));
+        m_defs.push(ID::new((V::Public, "S2"), TD::new([TS::field((V::Public, "w"), T::ident("u32"))])));
+    }
+    m_defs.push(ID::new((V::Public, "R"), TD::new(r_stmts).with_attributes([A::packed()])));
+    m_defs.push(ID::new((V::Public, "K"), ED::new(T::ident("u32"), [ES::field("A")], [])));
+    let mm = M::new().with_uses([IP::from(if type_import { "n::S" } else { "n" })]).with_definitions(m_defs);
+    let mn2 = mn.clone().with_definitions([ID::new(
+        (V::Public, "S2"),
+        TD::new([TS::field((V::Public, "a"), T::ident("u64")), TS::field((V::Public, "b"), T::ident("u64"))])
+            .with_attributes([A::align(8)]),
+    )]);
+    let n_gains_s2 = a.len() > 11 && a[11] == 2;
     let mut u_defs: Vec<ID> = vec![];
     let p8 = || T::ident("u8").const_pointer();
     if a[3] != 0 {
@@ -1460,7 +1485,7 @@ pub fn t_unrelated(a: &[i64]) -> Val {
             mods.push((&mu, "u"));
         }
         mods.push((&mm, "m"));
-        mods.push((&mn, "n"));
+        mods.push((if with_u && n_gains_s2 { &mn2 } else { &mn }, "n"));
         if with_u && a[9] == 0 {
             mods.push((&mu, "u"));
         }
